@@ -12,6 +12,7 @@
     instantiated by `genCfg` from the regenerated `Gen.cloneLiteral` / `Gen.cloneLater`.
 -/
 import GormModel.Gen.CloneFacts
+import GormModel.Gen.CloneInit
 namespace Gorm.Upsert
 
 /-- schema/field.go: the field attributes the modelled code branches on -/
@@ -304,8 +305,11 @@ structure CloneCfg where
   assigns : Bool
 deriving DecidableEq, Repr
 
+/-- is Statement field `f` carried over by `clone()`: in the literal as `f: stmt.f`, by a later
+    make+copy, or by the plain later statement `newStmt.f = stmt.f` (anything else counts as not copied) -/
 def fieldCopied (f : String) : Bool :=
-  Gen.cloneLiteral.contains (f, "stmt." ++ f) || Gen.cloneLater.contains (f, "makeCopy")
+  Gen.cloneLiteral.contains (f, "stmt." ++ f) || Gen.cloneLater.contains (f, "makeCopy") ||
+    Gen.cloneInitStmts.contains (f, "newStmt." ++ f ++ " = stmt." ++ f)
 
 /-- the facts of the CURRENT source tree -/
 def genCfg : CloneCfg :=
